@@ -65,6 +65,9 @@ func scriptDecide(script []scriptEntry) func(refsmtp.Step) refsmtp.Action {
 				return refsmtp.Action{Kind: refsmtp.Reply, Code: 252, Text: "2.1.5 Cannot VRFY user, but will accept message and attempt delivery"}
 			}
 			return refsmtp.Action{}
+		case "odd-positive":
+			// a reply that is neither a 2yz acknowledgement nor negative (354 / 150 / 334): nothing was accepted
+			return refsmtp.Action{Kind: refsmtp.Reply, Code: []int{354, 150, 334}[st.Index%3], Text: "scripted reply that is no completion reply"}
 		case "queue-then-drop":
 			// (meaningful at end-of-data) the server queues the message, the connection dies before the 250 leaves
 			return refsmtp.Action{Kind: refsmtp.Drop, Code: 250}
